@@ -475,6 +475,11 @@ read_chunk()
     ChunkHeader header;
     auto decoder = stream_.make_decoder(ovmb_size<ChunkHeader>);
     read(decoder, header);
+    if (header.compression != 0) {
+        state_ = ReadState::ErrorUnsupportedChunkVersion;
+        error_msg_ = "Chunk compression is not supported";
+        return;
+    }
     if (header.file_length > stream_.remaining_bytes()) {
         state_ = ReadState::ErrorChunkTooBig;
         return;
